@@ -42,6 +42,73 @@ theorem trace_equiv_trans (lvl : ObsLevel) (a b c : Flow.Flow)
     ∀ env n, trace lvl a env n = trace lvl c env n :=
   fun env n => (h1 env n).trans (h2 env n)
 
+/-! ### observation levels are ordered: full-level equivalence implies every coarser one -/
+
+/-- forget what a coarser level does not observe -/
+def coarsenRouter (lvl : ObsLevel) (r : RouterObs) : RouterObs :=
+  { r with caseCats := if lvl.catNames then r.caseCats else []
+           otherCats := if lvl.catNames then r.otherCats else []
+           resultName := if lvl.resultName then r.resultName else none }
+
+def coarsen (lvl : ObsLevel) : Obs → Obs
+  | .act a => .act a
+  | .ask r => .ask (coarsenRouter lvl r)
+  | .diverge => .diverge
+
+theorem routerObs_coarsen (lvl : ObsLevel) (r : Router) :
+    routerObs lvl r = coarsenRouter lvl (routerObs ⟨true, true⟩ r) := by
+  cases r with
+  | «switch» o cs cats d w rn =>
+    cases hc : lvl.catNames <;> cases hr : lvl.resultName <;>
+      simp [routerObs, coarsenRouter, hc, hr]
+  | random cats rn =>
+    cases hc : lvl.catNames <;> cases hr : lvl.resultName <;>
+      simp [routerObs, coarsenRouter, hc, hr]
+
+theorem obsAt_coarsen (lvl : ObsLevel) (f : Flow.Flow) (s : St) :
+    obsAt lvl f s = coarsen lvl (obsAt ⟨true, true⟩ f s) := by
+  cases s with
+  | div => rfl
+  | «at» p =>
+    simp only [obsAt]
+    cases f.nodes[p.node]? with
+    | none => rfl
+    | some n =>
+      simp only
+      cases n.actions[p.k]? with
+      | some a => rfl
+      | none =>
+        simp only
+        cases n.router with
+        | none => rfl
+        | some r => simp [coarsen, routerObs_coarsen lvl r]
+
+theorem run_coarsen (lvl : ObsLevel) (f : Flow.Flow) :
+    ∀ (n : Nat) (s : Option St) (env : Nat → Nat),
+      run (flowSys lvl f) s env n = (run (flowSys ⟨true, true⟩ f) s env n).map (coarsen lvl) := by
+  intro n
+  induction n with
+  | zero => intro s env; cases s <;> rfl
+  | succ n ih =>
+    intro s env
+    cases s with
+    | none => rfl
+    | some st =>
+      simp only [run, List.map_cons]
+      have h1 : (flowSys lvl f).obs st = coarsen lvl ((flowSys ⟨true, true⟩ f).obs st) :=
+        obsAt_coarsen lvl f st
+      have h2 : (flowSys lvl f).step st (env 0) = (flowSys ⟨true, true⟩ f).step st (env 0) := rfl
+      rw [h1, h2, ih]
+
+/-- Equivalence at the full observation level (what C03 establishes) implies equivalence at
+every coarser level (what C02 and C04 state): the levels only forget. -/
+theorem full_equiv_implies_any_level (lvl : ObsLevel) (a b : Flow.Flow)
+    (h : ∀ env n, trace ⟨true, true⟩ a env n = trace ⟨true, true⟩ b env n) :
+    ∀ env n, trace lvl a env n = trace lvl b env n := by
+  intro env n
+  unfold trace at h ⊢
+  rw [run_coarsen lvl a, run_coarsen lvl b, h env n]
+
 /-- The certificate check is not vacuous: it rejects flows that differ in one observation.
 Two one-node flows sending different texts have no certificate whatsoever. -/
 def oneMsg (t : String) : Flow.Flow :=
